@@ -158,6 +158,13 @@ func (m *valueModel) intrinsic(f *Func, x ast.Expr, depth int) string {
 				if len(a.Lhs) == 1 && len(a.Rhs) == 1 {
 					return m.intrinsic(f, a.Rhs[0], depth+1)
 				}
+				if len(a.Lhs) == len(a.Rhs) { // a, b := x, y
+					for i, l := range a.Lhs {
+						if id := identOf(l); id != nil && (info.Defs[id] == obj || info.Uses[id] == obj) {
+							return m.intrinsic(f, a.Rhs[i], depth+1)
+						}
+					}
+				}
 			case *ast.RangeStmt:
 				if a.Value != nil && identOf(a.Value) != nil && info.Defs[identOf(a.Value)] == obj {
 					if tv, ok := info.Types[a.X]; ok && isValuePtrSlice(tv.Type) {
@@ -250,8 +257,41 @@ func valueObligations(c *Ctx, derefRule, contractRule string, funcs []*Func) {
 						}
 					}
 				}
+			case *ast.AssignStmt:
+				if contractRule == "" {
+					break
+				}
+				// store rule: everything stored into an element of a []*Value is non-nil
+				if len(n.Lhs) == len(n.Rhs) {
+					for i, l := range n.Lhs {
+						ix, ok := unparen(l).(*ast.IndexExpr)
+						if !ok {
+							continue
+						}
+						if tv, ok := info.Types[ix.X]; ok && isValuePtrSlice(tv.Type) {
+							a := n.Rhs[i]
+							if why := m.intrinsic(f, a, 0); why != "" {
+								c.obN(contractRule, key("store", a), w.Pos(a.Pos()), true, why, false)
+							} else {
+								ok, how := e.Prove(n, e.nn(e.k(), a))
+								c.ob(contractRule, key("store", a), w.Pos(a.Pos()), ok, how)
+							}
+						}
+					}
+				}
 			case *ast.CallExpr:
 				if contractRule == "" {
+					break
+				}
+				// make rule: a []*Value made with a length starts with nil elements; it must be filled, one store per
+				// element of the ranged collection whose length it was made with, before anything else
+				if isBuiltin(info, n, "make") && len(n.Args) >= 2 {
+					if tv, ok := info.Types[n.Args[0]]; ok && tv.IsType() && isValuePtrSlice(tv.Type) {
+						if lv, ok := info.Types[n.Args[1]]; !ok || lv.Value == nil || lv.Value.ExactString() != "0" {
+							ok, how := madeThenFilled(w, f, n)
+							c.ob(contractRule, key("make", n), w.Pos(n.Pos()), ok, how)
+						}
+					}
 					break
 				}
 				// append rule: everything appended to a []*Value is non-nil
@@ -310,3 +350,77 @@ func nodeStr(n ast.Node) string {
 }
 
 func itoa(i int) string { return strconv.Itoa(i) }
+
+// madeThenFilled: S := make([]*Value, len(A)) (the length possibly through a local assigned once) is followed, in the
+// same statement list, by `for i[, x] := range A { … S[i] = v }` whose body stores at the range key as a top-level
+// statement, contains no break/continue/goto, and nothing between the make and the loop mentions S. Every element is
+// then stored before S is read (an iteration that does not reach the store leaves the function).
+func madeThenFilled(w *World, f *Func, mk *ast.CallExpr) (bool, string) {
+	info := f.Pkg.TypesInfo
+	x := w.expander(f)
+	as, ok := w.parent[mk].(*ast.AssignStmt)
+	if !ok || len(as.Lhs) != 1 || len(as.Rhs) != 1 || identOf(as.Lhs[0]) == nil {
+		return false, "a []*Value is made with a length (its elements start nil) and is not bound to a local that is filled at once"
+	}
+	sobj := info.Defs[identOf(as.Lhs[0])]
+	if sobj == nil {
+		sobj = info.Uses[identOf(as.Lhs[0])]
+	}
+	size := x.str(mk.Args[1])
+	if !strings.HasPrefix(size, "len(") || !strings.HasSuffix(size, ")") {
+		return false, "a []*Value is made with the length " + size + ", not the length of the collection it is filled from: elements may stay nil"
+	}
+	ranged := size[len("len(") : len(size)-1]
+	list := stmtListOf(w, as)
+	after := false
+	for _, st := range list {
+		if st == ast.Stmt(as) {
+			after = true
+			continue
+		}
+		if !after {
+			continue
+		}
+		rs, isRange := st.(*ast.RangeStmt)
+		mentions := false
+		ast.Inspect(st, func(n ast.Node) bool {
+			if id, ok := n.(*ast.Ident); ok && info.Uses[id] == sobj {
+				mentions = true
+			}
+			return !mentions
+		})
+		if !mentions {
+			continue
+		}
+		if !isRange || x.str(rs.X) != ranged || identOf(rs.Key) == nil {
+			return false, "the slice made with nil elements is used before a range over " + ranged + " has filled it"
+		}
+		kobj := info.Defs[identOf(rs.Key)]
+		stored := false
+		for _, bs := range rs.Body.List {
+			if a2, ok := bs.(*ast.AssignStmt); ok && len(a2.Lhs) == 1 && a2.Tok == token.ASSIGN {
+				if ix, ok := unparen(a2.Lhs[0]).(*ast.IndexExpr); ok && identOf(ix.X) != nil && info.Uses[identOf(ix.X)] == sobj && identOf(ix.Index) != nil && info.Uses[identOf(ix.Index)] == kobj {
+					stored = true
+				}
+			}
+		}
+		jumps := false
+		ast.Inspect(rs.Body, func(n ast.Node) bool {
+			if _, ok := n.(*ast.FuncLit); ok {
+				return false
+			}
+			if br, ok := n.(*ast.BranchStmt); ok && br.Tok != token.FALLTHROUGH {
+				jumps = true
+			}
+			return true
+		})
+		switch {
+		case !stored:
+			return false, "the loop over " + ranged + " does not store into the made slice at the range key in every iteration: elements may stay nil"
+		case jumps:
+			return false, "the filling loop contains break/continue/goto: an iteration may skip its store and leave a nil element"
+		}
+		return true, "made with len(" + ranged + ") elements and filled, one store per iteration, by the range over " + ranged + " that follows"
+	}
+	return false, "the slice made with nil elements is never filled by a range over " + ranged
+}
